@@ -230,9 +230,15 @@ def check_registry(repo, rep):
     limit = W.enum_value(repo, "order_types", "LIMIT")
     KEY = "Sandbox-BTC-USDT"
 
+    # (the two non-final orders differ in type, side and reduce_only from each other: "active" is a matter of the status alone - a
+    # queued MARKET order that is still ACTIVE is cancelled by cancel-all like a resting one)
+    sell = W.enum_value(repo, "sides", "SELL")
+    types = {k: W.enum_value(repo, "order_types", k) for k in ("LIMIT", "STOP", "MARKET")}
+
     def mk_orders():
-        return [W.make_order(repo, f"O{i}", buy, limit, R.atom("q"), R.atom("p"), status=st[s])
-                for i, s in enumerate(("ACTIVE", "EXECUTED", "CANCELED", "ACTIVE"))]
+        spec = (("ACTIVE", "STOP", buy, False), ("EXECUTED", "LIMIT", buy, False), ("CANCELED", "MARKET", sell, True), ("ACTIVE", "MARKET", sell, True))
+        return [W.make_order(repo, f"O{i}", side, types[t], R.atom("q") if side is buy else -R.atom("q"), R.atom("p"), status=st[s], reduce_only=ro)
+                for i, (s, t, side, ro) in enumerate(spec)]
 
     def state(it):
         os_ = mk_orders()
